@@ -37,6 +37,12 @@ impl Settable<f32, E> for FaultyMotor {
                 let g = self.primary.clone();
                 self.follow(g)
             }
+            // 4: acknowledge the consumed setpoint at its source(s): take a mutable borrow of the
+            // followed getters while the forwarded set is running
+            4 => {
+                let _ = self.primary.borrow_mut().update();
+                let _ = self.alternative.borrow_mut().update();
+            }
             _ => {}
         }
         if let Some(k) = self.reject.get() {
@@ -698,7 +704,7 @@ pub fn generate(prop: &str, tier: Tier, rng: &mut Rng, seed: u64, run: u64) -> P
             5 => {
                 if rng.chance(0.2) {
                     // the motor changes what it follows from inside its next impl_set
-                    plan.push("MRE", &[rng.range(1, 3)]);
+                    plan.push("MRE", &[rng.range(1, 4)]);
                 } else {
                     plan.push("REJ", &[if rng.chance(0.5 + fault) { rng.range(1, 3) } else { 0 }]);
                 }
